@@ -191,6 +191,9 @@ def runOp (kind : String) (c : Cfg) (toks : List String) (vars : List (Option VS
     | "into_iter" =>
       let (w, r) := intoIterOp c v (n "take") (n "back") forget w
       some (setV vars j none, w, match r with | some es => items es | none => "panic")
+    | "into_iter_nth" =>
+      let (w, r) := intoIterNthOp c v (n "n") w
+      some (setV vars j none, w, match r with | some es => items es | none => "panic")
     | "into_bump_slice" => some (setV vars j none, w, "slice " ++ showElems kind (intoBumpSlice v))
     | "into_boxed" =>
       let (es, w, p) := intoBoxedThenDrop c v w
